@@ -1,15 +1,16 @@
 (* GrammarLax.v -- SPECIFICATION: what the strict parser ACCEPTS, as a relaxation of the
    ECMAScript grammar of Grammar.v.  It is Grammar.v with exactly these relaxations
    (each a way in which xjs accepts text that is not valid JavaScript; recorded findings
-   KF6, KF7, KF11, KF12, KF15):
+   KF6, KF7, KF11, KF12):
      1. assignment / compound assignment targets: any expression above assignment level;
         prefix ++/-- operands: any unary-level expression; postfix ++/-- operands: any
         postfix-level expression (Grammar.v: simple targets only);
      2. the name after '.' : any expression a prefix parse can build (Grammar.v: identifier);
-     3. function parameters: any token (Grammar.v: identifiers);
-     4. object keys: any expression (Grammar.v: identifier, string or number);
-     5. the single statement of if / while / for: any statement (Grammar.v: no declaration);
-     6. callee / object of call and member access: postfix level (Grammar.v: call level).
+     3. object keys: any expression (Grammar.v: identifier, string or number);
+     4. the single statement of if / while / for: any statement (Grammar.v: no declaration);
+     5. callee / object of call and member access: postfix level (Grammar.v: call level).
+   (Function parameters are identifiers, as in Grammar.v: the former relaxation "any token
+   as a parameter", KF15, was removed when ParseFunctionParameters was repaired.)
    C12 (soundness): whatever strict mode accepts without error is in this grammar. *)
 Require Import Base GoOps Token Tree Parser Grammar.
 Require Import Gen.Tables.
@@ -27,10 +28,6 @@ Definition eat_tok (t : token) (ts : list token) : option (list token) :=
 Definition ident_okL (i : ident) : bool :=
   (t_type (id_tok i) =? T_IDENT) && str_eqb (id_value i) (t_lit (id_tok i)).
 
-(* a parameter: any token, kept as an identifier node *)
-Definition m_paramL (i : ident) (ts : list token) : option (list token) :=
-  if str_eqb (id_value i) (t_lit (id_tok i)) then eat_tok (id_tok i) ts else None.
-
 Definition m_identL (i : ident) (ts : list token) : option (list token) :=
   if ident_okL i then eat_tok (id_tok i) ts else None.
 
@@ -38,9 +35,9 @@ Definition m_identL (i : ident) (ts : list token) : option (list token) :=
 Fixpoint m_paramsL (ps : list ident) (ts : list token) : option (list token) :=
   match ps with
   | [] => Some ts
-  | [p] => m_paramL p ts
+  | [p] => m_identL p ts
   | p :: ps' =>
-      match m_paramL p ts with
+      match m_identL p ts with
       | Some r => match eat T_COMMA r with Some (_, r') => m_paramsL ps' r' | None => None end
       | None => None
       end
